@@ -428,23 +428,33 @@ theorem networkFromAddr_tr (n : String) :
   by_cases h1 : n = "udp" <;> by_cases h2 : n = "tcp" <;> simp [h1, h2]
 
 /-- DNSCrypt: whether the handler wrote or not, the message handed to the library is normalised
-exactly once, with the network of the local address, protocol DNSCrypt (9) and the cap 65535 — the
-"configured maximum" of DNSCrypt/UDP is that constant — and only then written; a silent handler gets
-a SERVFAIL (2) which is normalised like any other response. -/
+exactly once, with the network of the local address and protocol DNSCrypt (9), and only then written;
+a silent handler gets a SERVFAIL (2) which is normalised like any other response.  Since the round-5
+`fix:` commit the cap is `h.srv.conf.MaxUDPRespSize` (read through a pointer: opaque here; the
+argument text is the syntactic fact `dnscrypt_src`, the behaviour is the wiring campaign's), and the
+UDP size of the *request* the library will truncate by is lowered (`SetUDPSize`, fact
+`dnscrypt_clamp_src`) exactly when the query has an OPT record and the network is UDP — after
+`normalize` (so the echo keeps the client's own size), before `WriteMsg`. -/
 theorem dnscrypt_write_path (h : S_dnsserver_dnsCryptHandler) (rc : AbsPtr × AbsPtr) (ctx : AbsPtr)
     (nrw : Option S_dnsserver_NonWriterResponseWriter) (written : Bool) (m g : AbsPtr) (network : String)
-    (w : Option String) :
-    let r := dnscrypt_ServeDNS h rc ctx nrw written m network w g
-    argsOf "normalize" r.2 = [[network, toString (9 : Int), "_", "_", toString (65535 : Int)]] ∧
-      names (after "normalize" r.2) = ["WriteMsg"] ∧ "WriteMsg" ∉ names (before "normalize" r.2) ∧
+    (reqOpt : AbsPtr) (w : Option String) :
+    let r := dnscrypt_ServeDNS h rc ctx nrw written m network reqOpt w g
+    argsOf "normalize" r.2 = [[network, toString (9 : Int), "_", "_", "_"]] ∧
+      names (after "normalize" r.2) =
+        (if reqOpt && decide (network = "udp") then ["IsEdns0", "SetUDPSize", "WriteMsg"]
+         else ["IsEdns0", "WriteMsg"]) ∧
+      "WriteMsg" ∉ names (before "normalize" r.2) ∧ "SetUDPSize" ∉ names (before "normalize" r.2) ∧
       r.1 = w ∧
       (argsOf "genErrorResponse" r.2 = if written then [] else [["_", toString (2 : Int)]]) := by
-  cases written <;> simp only [dnscrypt_ServeDNS, Bool.false_eq_true, ↓reduceIte] <;>
-    generalize toString (9 : Int) = nine <;> generalize toString (65535 : Int) = cap <;>
+  cases written <;> cases hc : (reqOpt && decide (network = "udp")) <;>
+    simp only [dnscrypt_ServeDNS, hc, Bool.false_eq_true, ↓reduceIte] <;>
+    generalize toString (9 : Int) = nine <;>
     generalize toString (2 : Int) = two <;>
     simp [argsOf, names, after, before]
 
-/-- Hence the limit DNSCrypt/UDP truncates to is max(512, advertised) for every 16-bit size. -/
+/-- With the cap left unset (`NewServerDNSCrypt` then takes 65535, fact `dnscrypt_cap_default_src`)
+the limit DNSCrypt/UDP truncates to is max(512, advertised) for every 16-bit size; with a configured
+cap it is `maxDNSSize_formula`'s max(512, min(advertised, configured)). -/
 theorem dnscrypt_udp_limit (edns : Int) (h : edns ≤ 65535) :
     Agd.Gen.TrC08.maxDNSSize "udp" edns 65535 = max 512 edns := by
   unfold Agd.Gen.TrC08.maxDNSSize; simp; omega
